@@ -158,3 +158,6 @@ func vRunHarness(h func(), vals map[string]string) (failures []string, assumeFai
 }
 
 func vNondetWord(label, charset string, maxlen int) string { s, _ := vnext(label); return s }
+
+// vSymbolic is true under the symbolic engine and false in native replays.
+func vSymbolic() bool { return false }
